@@ -267,19 +267,23 @@ def encoder(rep, prog, enc, par, roles):
             continue
         orole = object_roles(prog)
         ax = [deep_repr(a) for a in call_arg_exprs(calls[0])]
-        # encoder(algorithm, t_cost, m_cost, salt, hash): positional
-        want_ops = {0: ("algorithm", [orole.get("config"), orole.get("algorithm")]),
-                    1: ("opslimit", [orole.get("config"), orole.get("opslimit")]),
-                    2: ("memlimit", [orole.get("config"), orole.get("memlimit")]),
-                    3: ("salt", [orole.get("salt")]), 4: ("hash", [orole.get("hash")])}
+        # which encoder parameter is what: read off the order in which they are formatted into
+        # `$alg$v=19$m=..,t=..,p=1$salt$hash` (the order of the private function's parameters is free)
+        pos = encoder_param_roles(enc)
+        ix = {r_: i_ for i_, r_ in pos.items()}
+        want_ops = {ix.get("alg", 0): ("algorithm", [orole.get("config"), orole.get("algorithm")]),
+                    ix.get("t", 1): ("opslimit", [orole.get("config"), orole.get("opslimit")]),
+                    ix.get("m", 2): ("memlimit", [orole.get("config"), orole.get("memlimit")]),
+                    ix.get("salt", 3): ("salt", [orole.get("salt")]), ix.get("hash", 4): ("hash", [orole.get("hash")])}
+        T_I, M_I = ix.get("t", 1), ix.get("m", 2)
         for i, (role, path) in want_ops.items():
             ok = i < len(ax) and None not in path and ("_1." + ".".join(path)) in ax[i] and \
-                not any(("_1." + ".".join(p2)) in ax[i] for j, (r2, p2) in want_ops.items() if j != i and None not in p2 and (i >= 3 or j >= 3 or r2 != role) and p2 != path and not (i in (1, 2) and j in (1, 2)))
-            if i in (1, 2) and ok:
-                # t comes from .0 of convert(opslimit, memlimit), m from .1
-                po, pm = ax[i].find("_1." + ".".join(want_ops[1][1])), ax[i].find("_1." + ".".join(want_ops[2][1]))
+                not any(("_1." + ".".join(p2)) in ax[i] for j, (r2, p2) in want_ops.items() if j != i and None not in p2 and (role in ("salt", "hash") or r2 in ("salt", "hash") or r2 != role) and p2 != path and not (i in (T_I, M_I) and j in (T_I, M_I)))
+            if i in (T_I, M_I) and ok:
+                # t comes from the t component of convert(opslimit, memlimit), m from the m component
+                po, pm = ax[i].find("_1." + ".".join(want_ops[T_I][1])), ax[i].find("_1." + ".".join(want_ops[M_I][1]))
                 comp_, _cv = cm.conv_component(prog, call_arg_exprs(calls[0])[i])
-                ok = comp_ == ("t" if i == 1 else "m") and 0 <= po < pm
+                ok = comp_ == ("t" if i == T_I else "m") and 0 <= po < pm
             rep.ob("ENCODER", "PwHash::to_string passes %s" % role, ok,
                    "encoder operand %d is %s (object field roles %s)" % (i, ax[i][:120] if i < len(ax) else "?", orole), loc=calls[0].loc())
     # from_string fills the same fields from parsed content
@@ -330,15 +334,54 @@ def encoder(rep, prog, enc, par, roles):
         ec = [c for c in f.calls() if enc0 in prog.callee_fns(c)]
         if a2 and ec:
             t_hash = deep_repr(call_arg_exprs(a2[0])[8])
-            t_enc = deep_repr(call_arg_exprs(ec[0])[0])
+            t_enc = deep_repr(call_arg_exprs(ec[0])[{r_: i_ for i_, r_ in encoder_param_roles(enc).items()}.get("alg", 0)])
             ok = ("Argon2id" in t_hash) == ("Argon2id" in t_enc) and ("Argon2i" in t_hash or "Argon2id" in t_hash)
             rep.ob("ENCODER", "crypto_pwhash_str encodes the algorithm it used", ok, "hashed with %s, encoded as %s" % (t_hash[-40:], t_enc[-40:]), loc=ec[0].loc())
             # salt and hash operands of the encoder are the buffers used / produced by Argon2
             r_salt = cm.view_info(f, list(operand_locals(a2[0].args[4]))[0])[0]
             r_out = cm.view_info(f, list(operand_locals(a2[0].args[7]))[0])[0]
-            e_salt = cm.view_info(f, list(operand_locals(ec[0].args[3]))[0])[0]
-            e_hash = cm.view_info(f, list(operand_locals(ec[0].args[4]))[0])[0]
+            ix_ = {r_: i_ for i_, r_ in encoder_param_roles(enc).items()}
+            e_salt = cm.view_info(f, list(operand_locals(ec[0].args[ix_.get("salt", 3)]))[0])[0]
+            e_hash = cm.view_info(f, list(operand_locals(ec[0].args[ix_.get("hash", 4)]))[0])[0]
             rep.ob("ENCODER", "crypto_pwhash_str encodes the salt and hash it used", (r_salt, r_out) == (e_salt, e_hash), "same buffers", loc=ec[0].loc())
+
+
+def encoder_param_roles(enc):
+    """{argument index of the encoder: 'alg'|'t'|'m'|'salt'|'hash'} from the order of the Display
+    arguments of its format call: alg, version (19), m, t, salt, hash.  {} if the shape is not recognised
+    (callers then fall back to the declared order algorithm, t, m, salt, hash)."""
+    out = {}
+    for c in enc.calls():
+        if c.path not in ("std::fmt::Arguments::<'a>::new", "std::fmt::Arguments::<'a>::new_v1", "core::fmt::Arguments::<'a>::new_v1") or len(c.args) < 2:
+            continue
+        arr = call_arg_exprs(c)[-1]
+        while arr is not None and arr.k in ("ref", "cast"):
+            arr = arr.a
+        if arr is None or arr.k != "agg" or not arr.c or len(arr.c) != 6:
+            continue
+        inner = []
+        for x in arr.c:
+            y = x
+            if y.k == "call" and y.a.name.startswith("new_") and y.a.args:
+                y = call_arg_exprs(y.a)[0]
+            inner.append(y)
+        if evaluate(inner[1], {}) != 19:
+            continue
+        for role, y in zip(("alg", None, "m", "t", "salt", "hash"), inner):
+            if role is None:
+                continue
+            ps = cm.expr_leaf_locals(y) & set(range(1, enc.argc + 1))
+            if not ps:
+                ls = cm.expr_leaf_locals(y)
+                ps = enc.backward_slice(list(ls)) & set(range(1, enc.argc + 1)) if ls else set()
+            if len(ps) == 1:
+                out[list(ps)[0] - 1] = role
+        if sorted(out.values()) == ["hash", "m", "salt", "t"]:
+            # the algorithm is formatted as a literal selected by a branch on the remaining parameter
+            rest = [i_ for i_ in range(enc.argc) if i_ not in out]
+            if len(rest) == 1:
+                out[rest[0]] = "alg"
+    return out if sorted(out.values()) == ["alg", "hash", "m", "salt", "t"] else {}
 
 
 def some_edges(f):
